@@ -163,7 +163,7 @@ func c03Datagrams(e *Env) {
 		sock.Deliver(&Dgram{ID: id, Payload: p, Addr: ClientAddr(0)})
 		e.Settle()
 	}
-	nD := e.Range(1, 12)
+	nD := e.Range(1, 12*e.Depth())
 	for i := 0; i < nD; i++ {
 		var lines []string
 		for j, n := 0, e.Range(1, 5); j < n; j++ {
@@ -384,7 +384,7 @@ func c03HTTP(e *Env) {
 		e.Overlap = true
 		return
 	}
-	n := e.Range(1, 10)
+	n := e.Range(1, 10*e.Depth())
 	for i := 0; i < n; i++ {
 		path := []string{"/v2/raw", "/v2/event"}[e.Draw(2)]
 		body, enc, valid := c03Body(e)
